@@ -64,6 +64,11 @@ CLAIMED = {
          "Every assignment of {ok, refuse, reset-before-headers, circuit-open} (asserted) and {closed-without-answer, garbage} (explored) to up to 3 candidates is run on 3 balancers x 2 engines through the full stack; rapid adds bodies, methods and warm-up histories. With a working candidate and otherwise connection-level failures or skips the client must get that candidate's untouched answer (X-Olla-Endpoint naming it), every backend sees the identical request at most once, a failing request must have tried every candidate, failed endpoints are non-routable afterwards, receive none of five follow-up requests and are readmitted by a health check.",
          "The engine breaker is opened through its exported API (RecordFailure x5); refused dials cannot be observed at the backend, only through statuses.",
          "DESIGN.md §3 C04"),
+ "C05": ("fault_enumeration",
+         "complete enumeration of the failure-mode grid with fault-injecting backends + rapid-generated error bodies; status/format/promptness oracle",
+         "The grid {no endpoints, all unhealthy, unknown model, every endpoint refusing / resetting / closing before headers, backend 400..503 x {OpenAI error JSON, other JSON, HTML, empty}, 2xx with malformed body} x {proxy, provider, Anthropic translated, Anthropic passthrough} x stream flag x engine x endpoint count is enumerated completely through the full stack and rapid adds request texts and odd error bodies: no 2xx and no fabricated completion when nobody answered, non-empty error body, completion within 10 s while every timeout is >= 60 s, Anthropic error objects (application/json) on the Anthropic routes for both stream flags, backend statuses kept and bodies relayed.",
+         "Promptness is a one-sided wall-clock bound with a 6x margin; a 2xx backend answer with a malformed body is only asserted on the non-streaming translated path.",
+         "DESIGN.md §3 C05"),
  "C06": ("exploration",
          "rapid-generated endpoint lists against a reference selector model; concurrent fairness counting",
          "Selectors obtained from balancer.Factory over a real stats collector are judged against reference rules on generated lists (n<=5, all statuses, priorities, gauge vectors) sequentially and from up to 32 goroutines: member-or-error, top-tier only and every tier member reached, exact k-per-member round-robin fairness over any window, minimal gauge for least-connections.",
